@@ -16,8 +16,8 @@ from . import c01
 PID = "C02"
 
 BASE_CFG = {"engines": ("pandas", "pg"), "max_nodes": 7, "n_tables": (1, 2), "final_order": 0.3,
-            "shape": "diamond", "shape_prob": 0.4, "reuse_bias": True, "narrowing_tails": True,
-            "extend_then_ordered_window_prob": 0.1, "extend_then_partition_window_prob": 0.1, "concat_with_source_prob": 0.12, "concat_perm_prob": 0.08, "order_twin_prob": 0.3,
+            "shape": "diamond", "shape_prob": 0.5, "reuse_bias": True, "narrowing_tails": True,
+            "extend_then_ordered_window_prob": 0.1, "extend_then_partition_window_prob": 0.1, "concat_with_source_prob": 0.12, "concat_perm_prob": 0.08, "order_twin_prob": 0.4, "float_divide_prob": 0.9,
             "ops": {"natural_join": 7}, "diffname_prob": 0.3,
             "extra_jointypes": ["right", "right", "full"]}  # the native RIGHT / FULL JOIN text is PostgreSQL's own path
 
